@@ -517,14 +517,67 @@ for _f in sorted(_glob.glob("/verif/selftest/variants/b/C*-b*.diff")):
     for _p in [_own] + _CROSS.get(_name, []):
         case(_p, _p + "-agent-" + _name, "benign", "agent refactoring " + _name + ": " + _desc, patch="selftest/variants/b/" + _name + ".diff")
 
+
+# ---------------------------------------------------------------- third round of seeded changes (generated from the matrix)
+case('C01', "C01-seed5", "mutant", 'seeded (round 3): RegClient.ImageExport (image.go, imageExportDescriptor) writes every config/layer blob it obtains with rc.Blob',
+     patch="seeded/C01-5/patch.diff", expect=[('C01.R9', 'imageExportDescriptor', "io.CopyN of a blob reader")])
+case('C01', "C01-seed6", "mutant", 'seeded (round 3): RegClient.BlobGetOCIConfig (blob.go) gains a leniency fall-back: when rc.BlobGet for the config descriptor fai',
+     patch="seeded/C01-6/patch.diff", expect=[('C01.R10', 'BlobGetOCIConfig', "Descriptor.Data handed to WithRawBody")])
+case('C02', "C02-seed5", "mutant", 'seeded (round 3): cmd/regctl/manifest.go runManifestPut (regctl manifest put) now normalises the bytes read from stdin with by',
+     patch="seeded/C02-5/patch.diff", expect=[('C02.R9', 'runManifestPut', "raw body")])
+case('C02', "C02-seed6", "mutant", 'seeded (round 3): scheme/reg/manifest.go Reg.ManifestGet gained a compatibility fall-back on the error path: when manifest.New f',
+     patch="seeded/C02-6/patch.diff", expect=[('C02.R10', 'ManifestGet', "manifest.New(raw)")])
+case('C03', "C03-seed5", "mutant", 'seeded (round 3): scheme/ocidir.ManifestHead was tidied up to stop doing an os.Stat of the manifest blob on every head request',
+     patch="seeded/C03-5/patch.diff", expect=[('C03.R10', 'ManifestHead', "presence decided by the file")])
+case('C03', "C03-seed6", "mutant", 'seeded (round 3): scheme/reg feature detection (featureGet/featureSet in scheme/reg/reg.go, used for the referrers API probe in ',
+     patch="seeded/C03-6/patch.diff", expect=[('C03.R11', 'featureSet', "key of type featureKey")])
+case('C04', "C04-seed6", "mutant", 'seeded (round 3): image.go imageCopyOpt, goroutine that copies one index entry: the switch on the entry media type is simplifie',
+     patch="seeded/C04-6/patch.diff", expect=[('C04.R9', 'imageCopyOpt', "manifest media types")])
+case('C05', "C05-seed5", "mutant", 'seeded (round 3): Clean-up of the progress reporting in the root package BlobCopy (blob.go). The ticker goroutine that polled bl',
+     patch="seeded/C05-5/patch.diff", expect=[('C05.R6', 'BlobCopy', "source of BlobPut")])
+case('C06', "C06-seed5", "mutant", 'seeded (round 3): scheme/reg/tag.go TagDelete, fall-back path for registries without a tag delete API: after pushing the unique ',
+     patch="seeded/C06-5/patch.diff", expect=[('C06.R3', 'TagDelete', "ManifestDelete(placeholder digest)")])
+case('C06', "C06-seed6", "mutant", 'seeded (round 3): scheme/ocidir/tag.go tagDelete gains a fall-back for layouts written by other tools that store the full image ',
+     patch="seeded/C06-6/patch.diff", expect=[('C06.R8', 'tagDelete', "index entry removed")])
+case('C08', "C08-seed6", "mutant", 'seeded (round 3): OCIDir.BlobPut (scheme/ocidir/blob.go) now creates its temporary upload file directly in <layout>/blobs/ and c',
+     patch="seeded/C08-6/patch.diff", expect=[('C08.R7', 'BlobPut', "os.Rename")])
+case('C09', "C09-seed6", "mutant", 'seeded (round 3): closeProcManifest (scheme/ocidir/close.go), the mark phase of the OCI layout garbage collection run by OCIDir.',
+     patch="seeded/C09-6/patch.diff", expect=[('C09.R9', 'closeProcManifest', "index entry loaded by manifestGet")])
+case('C10', "C10-seed5", "mutant", 'seeded (round 3): Optimisation of the feature (capability) cache in scheme/reg/reg.go: featureSet now stores the probe result bo',
+     patch="seeded/C10-5/patch.diff", expect=[('C10.R8', 'featureSet', "key of type featureKey")])
+case('C11', "C11-seed6", "mutant", 'seeded (round 3): cmd/regctl/registry.go runRegistryLogin(): a convenience fallback is added to the connectivity check that foll',
+     patch="seeded/C11-6/patch.diff", expect=[('C11.R9', 'runRegistryLogin', "TLS disabled by code")])
+case('C12', "C12-seed6", "mutant", 'seeded (round 3): scheme/reg/blob.go BlobGet: the descriptor size is no longer passed to reghttp as ExpectLen, it is passed as T',
+     patch="seeded/C12-6/patch.diff", expect=[('C12.R8', 'BlobGet', "blob GET declares its length")])
+case('C13', "C13-seed6", "mutant", 'seeded (round 3): scheme/ocidir/ocidir.go indexSet (the function that records a pushed manifest in index.json of an OCI layout):',
+     patch="seeded/C13-6/patch.diff", expect=[('C13.R7', 'indexSet$1', "ref.name == tag")])
+case('C14', "C14-seed5", "mutant", 'seeded (round 3): scheme/ocidir/ocidir.go, indexGet (tag lookup in the index.json of an OCI layout, used by OCIDir.ManifestHead ',
+     patch="seeded/C14-5/patch.diff", expect=[('C14.R7', 'indexGet', "loose ref.name match HasSuffix")])
+case('C14', "C14-seed6", "mutant", 'seeded (round 3): image.go, RegClient.imageCopyOpt: the HEAD request on the target manifest is now skipped when source and targe',
+     patch="seeded/C14-6/patch.diff", expect=[('C14.R6', 'imageCopyOpt', "source fetch behind target head")])
+case('C15', "C15-seed5", "mutant", 'seeded (round 3): Windows path support was added to the OCI layout path grammar in types/ref/ref.go: pathS (used by ocidirRE, i.',
+     patch="seeded/C15-5/patch.diff", expect=[('C15.R2', 'ocidirRE', "layout path alphabet")])
+case('C16', "C16-seed6", "mutant", 'seeded (round 3): cmd/regbot/sandbox/manifest.go rcManifestGet - the helper behind the regbot script calls manifest.get(ref[, pl',
+     patch="seeded/C16-6/patch.diff", expect=[('C16.R5', 'rcManifestGet', "platform.Parse result")])
+case('C17', "C17-seed5", "mutant", 'seeded (round 3): cmd/regsync processRef(): clean-up of the parallel throttle handling. Instead of a throttleDone() before eve',
+     patch="seeded/C17-5/patch.diff", expect=[('C17.R6', 'processRef', "Acquire")])
+case('C17', "C17-seed6", "mutant", 'seeded (round 3): scheme/reg ManifestPut(): consistency clean-up, the explicit err = resp.Close(); if err != nil { return ... }',
+     patch="seeded/C17-6/patch.diff", expect=[('C17.R9', 'ManifestPut', "response of Do")])
+case('C19', "C19-seed5", "mutant", 'seeded (round 3): Optimisation in the library core, scheme/ocidir/manifest.go: OCIDir.ManifestHead already detects the media typ',
+     patch="seeded/C19-5/patch.diff", expect=[('C19.R1', 'configGet', "ungated call of ManifestHead")])
+case('C19', "C19-seed6", "mutant", 'seeded (round 3): Clean-up in cmd/regbot/sandbox: the two identical log the action with script name and dry-run flag, then retu',
+     patch="seeded/C19-6/patch.diff", expect=[('C19.R1', 'imageCopy', "ungated call of ImageCopy")])
+case('C20', "C20-seed5", "mutant", 'seeded (round 3): Refactor of cmd/regsync/root.go (parse each reference once): the registry sync step no longer builds src/re',
+     patch="seeded/C20-5/patch.diff", expect=[('C20.R5', 'refWithRepo', "Ref.Path stored")])
+case('C20', "C20-seed6", "mutant", 'seeded (round 3): Bug-fix style edit of OCIDir.ManifestDelete (scheme/ocidir/manifest.go): an index entry whose manifest blob is',
+     patch="seeded/C20-6/patch.diff", expect=[('C20.R1', 'ManifestDelete', "os.Remove path")])
+
 # thirty unexported functions the rules know by name, renamed throughout (resolved by role, internal/rules/roles.go)
 for _p in ["C%02d" % i for i in range(1, 21)]:
     case(_p, _p + "-b-rename", "benign", "thirty unexported anchor functions renamed throughout the module", patch="selftest/variants/all-b-rename.diff")
 
 case("C17", "C17-D18", "mutant", "historical defect D18 re-introduced: TagDelete defers the Close of its DELETE response and runs the fallback under it",
      patch="selftest/regress/D18.diff", expect=[("C17.R9", "TagDelete", "response of Do")])
-case("C17", "C17-seed6", "mutant", "seeded: ManifestPut defers the Close of its PUT response; the referrers fallback sends nested requests under it",
-     patch="seeded/C17-6/patch.diff", expect=[("C17.R9", "ManifestPut", "response of Do")])
 case("C17", "C17-D17", "mutant", "historical defect D17 re-introduced: the cancelled waiter searches the queue by the address of its (possibly zero-size) entry",
      patch="selftest/regress/D17.diff", expect=[("C17.R8", "Acquire", "own position")])
 
